@@ -42,6 +42,36 @@ Definition the_table : table :=
    mkty [P "In" false 11] 14 PNone true None;            (* 19 basics.ImageNode *)
    mkty [P "VALUE" false 1; P "Vals" true 1; P "Values" true 1; P "Values2" true 1] 1 PNone false None ].   (* 20 mix: prefix-sharing, mixed-case port names *)
 
+(* registered names of the table's types (the "type" string of a saved node), in table order *)
+Definition the_names : list string :=
+ [ "github.com/EliCDavis/polyform/generator/parameter.Value[float64]";
+   "github.com/EliCDavis/polyform/generator/parameter.Value[int]";
+   "github.com/EliCDavis/polyform/generator/parameter.Value[string]";
+   "github.com/EliCDavis/polyform/generator/parameter.Value[bool]";
+   "github.com/EliCDavis/polyform/generator/parameter.Value[github.com/EliCDavis/vector/vector2.Vector[float64]]";
+   "github.com/EliCDavis/polyform/generator/parameter.Value[github.com/EliCDavis/vector/vector3.Vector[float64]]";
+   "github.com/EliCDavis/polyform/generator/parameter.Value[[]github.com/EliCDavis/vector/vector3.Vector[float64]]";
+   "github.com/EliCDavis/polyform/generator/parameter.Value[github.com/EliCDavis/polyform/math/geometry.AABB]";
+   "github.com/EliCDavis/polyform/generator/parameter.Value[github.com/EliCDavis/polyform/drawing/coloring.WebColor]";
+   "github.com/EliCDavis/polyform/generator/parameter.File";
+   "github.com/EliCDavis/polyform/generator/parameter.Image";
+   "github.com/EliCDavis/polyform/generator/parameter.Value[float32]";
+   "github.com/EliCDavis/polyform/generator/parameter.Value[[]string]";
+   "github.com/EliCDavis/polyform/nodes.Struct[float64,main.SumData]";
+   "github.com/EliCDavis/polyform/nodes.Struct[string,main.JoinData]";
+   "github.com/EliCDavis/polyform/nodes.Struct[string,main.DescribeData]";
+   "github.com/EliCDavis/polyform/nodes.Struct[[]uint8,main.CatData]";
+   "github.com/EliCDavis/polyform/nodes.Struct[github.com/EliCDavis/polyform/generator/artifact.Artifact,github.com/EliCDavis/polyform/generator/artifact/basics.TextNodeData]";
+   "github.com/EliCDavis/polyform/nodes.Struct[github.com/EliCDavis/polyform/generator/artifact.Artifact,github.com/EliCDavis/polyform/generator/artifact/basics.BinaryNodeData]";
+   "github.com/EliCDavis/polyform/nodes.Struct[github.com/EliCDavis/polyform/generator/artifact.Artifact,github.com/EliCDavis/polyform/generator/artifact/basics.ImageNodeData]";
+   "github.com/EliCDavis/polyform/nodes.Struct[float64,main.MixData]" ].
+
+(* the JSON text of a save, for this table.  Floating-point texts are delegated: the text comparison is made on
+   schemas without them ([schema_plain]), so the instance of [show_num] is never consulted *)
+Definition the_render (h : header) (sc : schema) : string :=
+  render (fun _ => "<float>") base64 (fun k => nth k the_names "")
+         (fun k => match kind_of the_table k with PFile | PImage => true | _ => false end) h sc.
+
 (* ---- rendering model values as the harness's observation trees ---- *)
 Definition jopt (o : option jval) : jval := match o with Some v => JArr [v] | None => JNull end.
 Definition jcli (o : option (string * string)) : jval :=
@@ -121,6 +151,7 @@ Inductive case :=
         (digests2 : list N)        (* the reloaded application saved repeatedly (App.Schema() x4, graph level) *)
         (digest_plain : N)         (* the file loaded into a bare graph.Instance, saved at graph level *)
         (cont : option contobs)
+        (text1 : option (header * string))   (* the first save's bytes (small files whose values avoid the delegated texts) *)
 (* a shipped graph file: load -> save S1 -> load -> save S2 *)
 | CFile (file1 : jval) (file2 : option jval) (arts1 : jval) (arts2 : option jval) (digest1 digest2 : N).
 
@@ -142,8 +173,14 @@ Definition orelse (o : option jval) (d : jval) : jval := match o with Some x => 
 Definition corr_ok (c : case) : bool :=
   match c with
   | CTable obs => list_eqb ty_eqb obs the_table
-  | CHist modulo ops oks before _ file1 _ reload_ok after _ file2 _ _ cont =>
+  | CHist modulo ops oks before _ file1 _ reload_ok after _ file2 _ _ cont text1 =>
       let '(s, moks) := run_from the_table empty ops in
+      match text1 with
+      | None => true
+      | Some (h, t) =>   (* byte for byte: the model's schema rendered as encoding/json writes it *)
+          let sc := encode the_table s in
+          negb (schema_plain sc) || String.eqb (the_render h sc) t
+      end &&
       match cont with
       | None => true
       | Some k =>   (* the model carries on from the state it reached (decode (encode s) = s is a theorem) *)
@@ -167,7 +204,7 @@ Definition corr_ok (c : case) : bool :=
 Definition prop_ok (c : case) : bool :=
   match c with
   | CTable _ => true
-  | CHist _ _ _ before arts_before file1 digs reload_ok after arts_after file2 dig2 dig_app cont =>
+  | CHist _ _ _ before arts_before file1 digs reload_ok after arts_after file2 dig2 dig_app cont _ =>
       match cont with
       | None => true
       | Some k =>   (* the reloaded graph carries on exactly as the one that was saved *)
